@@ -205,11 +205,30 @@ CLAIMED["C12"] = {
     "design_ref": "DESIGN.md §5 C11 / C12, §11.2",
 }
 
+CLAIMED["C20"] = {
+    "category": "exploration",
+    "text": "BOUNDED only (labelled; nothing here is counted as proved): the sensitivities are computed inside clarabel / good_lp and rooc forwards them by row name, so no contract on repository code decides the sign convention or the pairing of prices with rows. "
+            "The statement is executed instead on the real Clarabel path: for 6 row sets x 5 objectives x min / max x 2 offsets (two continuous variables; <=, >= and = rows, slack rows, an unnamed row) the reported shadow price of every named row is compared with the "
+            "central finite difference of the optimal value with respect to that row's right-hand side (base points with a kink are skipped: the property excludes degenerate optima); inactive rows must report zero, unnamed rows none, every named row one.",
+    "note": "Bound: the corpus in units/U20.dual/witness.rs; step 1e-3, agreement within 1e-4 relative. Trusted: Clarabel's optimum for the base and perturbed models. The builder-side accessors (BuilderSolution::shadow_price) forward to the same map.",
+    "technique": "bounded executable check of the reported duals against finite-difference sensitivities on the real solver path (stand-in where no contract can reach; labelled bounded)",
+    "design_ref": "DESIGN.md §9 C20, §11.9",
+}
+
+CLAIMED["C17"] = {
+    "category": "exploration",
+    "text": "BOUNDED only (labelled; nothing here is counted as proved): the export is text meant for an independent reader, and a contract would need a formal LP-format reader plus a string theory for format! / push_str output, which neither verifier has. "
+            "The statement is executed instead: a small CPLEX-LP reader written inside the check (sharing no code with the exporter) reads LinearModel::to_lp_format's text for about 2600 three-variable models - 11 variable kinds, 8 coefficient triples "
+            "(zero rows, 1e-9 .. 1e8, negative, within 1e-6 of 1), 5 naming patterns incl. user names that look like generated ones, min / max / satisfy, three offsets - and must recover sense, objective and constant, every row (coefficients, relation, "
+            "right-hand side, user name), bounds, binary / general markings, with unique row names. One genuine defect was found this way and repaired (fix: 222a2c5): a generated row name repeated a user-given one.",
+    "note": "Bound: the corpus in units/U17.lp/witness.rs. Trusted: the reader's own reading of the LP conventions (default bounds 0 .. +infinity, binaries 0 .. 1, `free`, a constant term in the objective).",
+    "technique": "bounded executable check of export -> independent reader -> comparison with the model on the real LinearModel::to_lp_format (stand-in where no contract can reach; labelled bounded)",
+    "design_ref": "DESIGN.md §9 C17, §11.9",
+}
+
 NOT_APPLICABLE = {
     "C03": "quantifies over source texts through the pest-generated parser and an external MILP search; every in-repo step that can carry a contract is covered by C01/C02/C04/C05; no further function exists to attach an obligation to",
     "C06": "relates two parses; the expansion engine works on parser IL with dyn Fn callbacks, scope frames and evaluated iterables that Verus does not accept and Kani cannot execute; its specification would be a formal semantics of the whole language",
     "C09": "the operator table is data handed to pest's PrattParser and tokens come from macro-generated grammar code; neither verifier can take that code, and assuming the library implements precedence climbing would assume the property",
-    "C17": "the export is text read by an independent reader; a contract would need a formal LP-format reader and a string theory for format!/push_str output; Kani cannot execute float formatting",
-    "C20": "sensitivities are computed inside clarabel/good_lp; rooc only forwards them by name, so no contract on repository code decides the sign convention",
 
 }
